@@ -8,7 +8,6 @@ import (
 	pipeline "github.com/buildkite/go-pipeline"
 	"github.com/buildkite/go-pipeline/signature"
 	"github.com/buildkite/go-pipeline/warning"
-	"gopkg.in/yaml.v3"
 
 	"verif/doc"
 	"verif/gen"
@@ -76,7 +75,7 @@ func c02Run(c *run.Ctx, text string, interp bool, kp *keys.Pair, reps int) (what
 				return
 			}
 			if _, err := verifyStep(kp.Verifier, s.Signature, s, repo, venv); err != nil {
-				js, _ := json.Marshal(s)
+				js, _ := safeJSONMarshal(s)
 				bad = fmt.Sprintf("%s: signature of step %s does not verify after re-parse: %v; step: %s", leg, path, err, clip(string(js), 1500))
 				return
 			}
@@ -96,7 +95,7 @@ func c02Run(c *run.Ctx, text string, interp bool, kp *keys.Pair, reps int) (what
 	}
 	for rep := 0; rep < reps; rep++ {
 		// JSON, whole pipeline
-		jb, err := json.Marshal(p)
+		jb, err := safeJSONMarshal(p)
 		if err != nil {
 			return "json.Marshal: " + err.Error(), nil, false
 		}
@@ -113,7 +112,7 @@ func c02Run(c *run.Ctx, text string, interp bool, kp *keys.Pair, reps int) (what
 			if bad != "" {
 				return
 			}
-			sb, err := json.Marshal(s)
+			sb, err := safeJSONMarshal(s)
 			if err != nil {
 				bad = "json.Marshal(step): " + err.Error()
 				return
@@ -142,7 +141,7 @@ func c02Run(c *run.Ctx, text string, interp bool, kp *keys.Pair, reps int) (what
 			c.Count("yaml_legs_skipped_leading_ws_multiline", 1)
 			continue
 		}
-		yb, err := yaml.Marshal(p)
+		yb, err := safeYAMLMarshal(p)
 		if err != nil {
 			return "yaml.Marshal: " + err.Error(), nil, false
 		}
